@@ -11,10 +11,10 @@ import (
 // fresh instance + replay of the history + one more operation. Every transition calls the real code
 // and the reference model in lock-step.
 type SeqSpec struct {
-	Ops   []string                                  // alphabet, simplest first
-	New   func() interface{}                        // fresh implementation + model (must reset the virtual clock)
+	Ops   []string                                   // alphabet, simplest first
+	New   func() interface{}                         // fresh implementation + model (must reset the virtual clock)
 	Apply func(s interface{}, op int) (string, bool) // applies op to both; returns the mismatch (ok=false) or an observation
-	Canon func(s interface{}) string                // canonical state key (property-relevant fields only)
+	Canon func(s interface{}) string                 // canonical state key (property-relevant fields only)
 	Depth int
 }
 
